@@ -34,6 +34,10 @@ CHECKS['C20'] = dict(level='exploration', engine='statesearch',
    technique='exhaustive enumeration of component lists x kinds x single failure points x close-error subsets x child-container nestings on the real app container vs a list-based reference model',
    text='All component lists up to 4 (quick) / 5 (thorough) with every plain/runnable mix, every single Init/Run failure point, every subset of failing Close calls, and nested child containers (depth <= 2) with shadowed names and by-name / by-type lookups from inside Init are run on the real app.App; the call log, the returned error and every lookup result are compared with a boring reference.',
    note='components return immediately; executed inside a synctest bubble so the container watchdog timers never depend on wall clock', ref='5 C20')
+CHECKS['C01'] = dict(level='model_checking', engine='statesearch',
+   technique='explicit-state BFS (distributed over 16 processes, level-synchronous, canonical-state dedup) over event histories of 2-3 real sync-tree replicas with a harness-owned network; settle phase executed from every distinct state',
+   text='All histories up to a depth bound of local edits / snapshots and per-message fates (deliver any in-flight head update, full-sync request or response stream; drop; duplicate; cut a response stream) over real synctree/objecttree replicas are enumerated; in every state the ancestry invariants (stored parents and snapshot bases, recorded heads = live heads, advertised heads held) are checked and from every distinct state both settle variants (drop all / flush all, then anti-entropy between every ordered pair) must end with equal heads and equal stored sets.',
+   note='search runs over an in-memory implementation of the storage interfaces (real any-store replay of every short history must give the identical canonical state); one account on all replicas; depth-bounded because request/counter-request chains make the message-level space infinite', ref='5 C01')
 NOT_YET = 'check not built yet (work in progress, see DESIGN.md section 10)'
 m = {
  'version': 1,
